@@ -60,6 +60,10 @@ pub enum Attack {
     S4UnboundLayers,
     /// blow-up exponent p - m (taken modulo the field): evaluation domain 2^(t-m), smaller than the trace
     S3ModularBlowup(u8),
+    /// FRI is run honestly on an arbitrary low-degree polynomial F; after the queries are known, one
+    /// decommitted cell per queried row of table `t` (0 original, 1 interaction, 2 composition) is set to
+    /// the value that makes the DEEP quotient equal F there (the cell is not the committed one)
+    S7UncommittedOpenings(u8),
 }
 
 pub struct Forged {
@@ -295,7 +299,7 @@ pub fn forge<L: LayoutTrait + GenericLayoutTrait>(
             oods = mask.clone();
             oods.extend_from_slice(&comp);
         }
-        Attack::S4UnboundLayers => {
+        Attack::S4UnboundLayers | Attack::S7UncommittedOpenings(_) => {
             let c_lie = c_true;
             comp[0] = c_lie - z * comp[1];
             oods = mask.clone();
@@ -365,6 +369,10 @@ pub fn forge<L: LayoutTrait + GenericLayoutTrait>(
             ts.absorb(&fi.last_coefs);
             fi
         }
+        Attack::S7UncommittedOpenings(_) => {
+            let f_coefs = prf_felts(p.seed ^ 0x59, 1usize << t.min(log_eval));
+            FriInstance::commit(kind, &fparams, f_coefs, &mut ts)
+        }
         // a FRI instance declared for a domain 2^extra larger: trees padded, last layer = full interpolant
         Attack::S2FriDomain(_) => FriInstance::commit_ext(kind, &fparams, nat, &mut ts, |_, r| r, fri_extra, 0),
         // declared last-layer bound 2^(t - sum) although the final layer has only 2^(t - m - sum) points
@@ -388,10 +396,42 @@ pub fn forge<L: LayoutTrait + GenericLayoutTrait>(
             layers: open.layers.iter().map(|l| LayerWitness { leaves: l.leaves.clone(), table_witness: twit(l.auth.clone()) }).collect(),
         }
     };
+    let mut dec_orig = t_orig.rows(&queries);
+    let mut dec_int = t_int.rows(&queries);
+    let mut dec_comp = t_comp.rows(&queries);
+    if let Attack::S7UncommittedOpenings(tb) = strat {
+        let tb = *tb % 3;
+        for (qi, q) in queries.iter().enumerate() {
+            let x = xs[*q as usize];
+            // coefficient of the chosen cell in the DEEP quotient at x
+            let (lambda, slot): (Felt, &mut Felt) = match tb {
+                2 => (dcoefs[m] * inv(x - z2), &mut dec_comp[qi * 2]),
+                _ => {
+                    let col = if tb == 0 { 0 } else { n1 };
+                    let mut l = Felt::ZERO;
+                    for (k, (c, r)) in geometry.iter().enumerate() {
+                        if *c == col {
+                            l += dcoefs[k] * inv(x - z * shift_pow[r]);
+                        }
+                    }
+                    if tb == 0 {
+                        (l, &mut dec_orig[qi * n1])
+                    } else {
+                        (l, &mut dec_int[qi * n2])
+                    }
+                }
+            };
+            if lambda == Felt::ZERO {
+                return Err("attack not applicable: the chosen column has no DEEP term".into());
+            }
+            let target = fi.evals[0][*q as usize];
+            *slot += (target - deep[*q as usize]) * inv(lambda);
+        }
+    }
     let witness = StarkWitness {
-        traces_decommitment: trace::Decommitment { original: TDecommitment { values: t_orig.rows(&queries) }, interaction: TDecommitment { values: t_int.rows(&queries) } },
+        traces_decommitment: trace::Decommitment { original: TDecommitment { values: dec_orig }, interaction: TDecommitment { values: dec_int } },
         traces_witness: trace::Witness { original: twit(t_orig.tree.witness(&queries).0), interaction: twit(t_int.tree.witness(&queries).0) },
-        composition_decommitment: TDecommitment { values: t_comp.rows(&queries) },
+        composition_decommitment: TDecommitment { values: dec_comp },
         composition_witness: twit(t_comp.tree.witness(&queries).0),
         fri_witness,
     };
